@@ -112,9 +112,72 @@ pub fn totality(out: &mut Out, tier: &str, seed: u64) {
     }
 }
 
+fn cfg_fields(cfg: &Config) -> Option<(i64, u64, u64, u64, u64)> {
+    let v = serde_json::to_value(cfg).ok()?;
+    let alg = match v.get("algorithm")? { serde_json::Value::String(s) => if s == "Argon2i13" { 1 } else { 2 }, x => x.as_i64()? };
+    Some((alg, v.get("hash_length")?.as_u64()?, v.get("memlimit")?.as_u64()?, v.get("opslimit")?.as_u64()?, v.get("salt_length")?.as_u64()?))
+}
+
+/// correspondence of the parser / encoder with the Coq model on one string
+fn model_cases(out: &mut Out, s: &str, nontrivial: bool) {
+    let sb = s.as_bytes();
+    let r = guard(|| VecPwHash::from_string(s));
+    let res = match r {
+        Outcome::Ok(p) => {
+            let re = p.to_string();
+            let (hash, salt, cfg) = p.into_parts();
+            match cfg_fields(&cfg) {
+                Some((alg, hl, mem, ops, sl)) => {
+                    out.case("pwhash.reencode", &[b(sb)], &Outcome::Ok(vec![b(re.as_bytes())]), nontrivial);
+                    Outcome::Ok(vec![b(&hash), b(&salt), Tok::I(alg), Tok::I(hl as i64), b(&mem.to_le_bytes()), b(&ops.to_le_bytes()), Tok::I(sl as i64)])
+                }
+                None => Outcome::Panic,
+            }
+        }
+        Outcome::Err => { out.case("pwhash.reencode", &[b(sb)], &Outcome::Err, nontrivial); Outcome::Err }
+        Outcome::Panic => Outcome::Panic,
+    };
+    out.case("pwhash.from_string", &[b(sb)], &res, nontrivial);
+    for (ops, mem) in [(2u64, 16usize * 1024), (3, 32 * 1024 + 5)] {
+        let d = guard(|| crypto_pwhash_str_needs_rehash(s, ops, mem));
+        out.case("pwhash.needs_rehash", &[b(sb), b(&ops.to_le_bytes()), b(&(mem as u64).to_le_bytes())], &d.map(|x| vec![Tok::I(x as i64)]), nontrivial);
+    }
+}
+
 pub fn run_c10(out: &mut Out, tier: &str, seed: u64) {
     let mut rng = Rng::new(seed, "c10");
     let thorough = tier == "thorough";
+    // parser / encoder correspondence: grammar-built strings (valid and one-defect variants), soup
+    for (class, s) in grammar(&mut rng, if thorough { 60 } else { 12 }) { model_cases(out, &s, class == "valid" || s.len() > 40); out.len_bucket("phc-string", s.len()); }
+    for s in soup(&mut rng, if thorough { 600 } else { 150 }) { model_cases(out, &s, false); }
+    // salts / hashes whose base64 form begins like a field name ("argon2...", digits) -- legal values
+    // that a segment-classifying parser may mistake for another field
+    for (salt_b64, hash_b64) in [("argon2idAAAAAAAAAAAAAA", "q83vq83vq83vq83vq83vq83vq83vq83vq83vq83vq80"), ("AAAAAAAAAAAAAAAAAAAAAA", "argon2iAq83vq83vq83vq83vq83vq83vq83vq83vq80"), ("argon2AAAAA", "argon2AAAAAAAAAAAAAAAAAAAAA"), ("v19AAAAAAAA", "m8t1p1AAAAAAAAAAAAAAAAAAAAA")] {
+        for alg in ["argon2id", "argon2i"] {
+            let s = phc(alg, "19", "8", "3", "1", salt_b64, hash_b64);
+            model_cases(out, &s, true);
+            out.search_evaluations += 1;
+            // such a string is well-formed: parse must succeed and re-encode to itself
+            match guard(|| VecPwHash::from_string(&s)) {
+                Outcome::Ok(p) => { if p.to_string() != s { out.hit("pwhash.reencode.changes-string.field-like-salt", format!("{} -> {}", s, p.to_string()), json!({"op":"obj.PwHash.from_string+to_string","string":s})); } }
+                other => out.hit("pwhash.from_string.rejects-field-like-salt-or-hash", format!("{} ({})", s, other.class()), json!({"op":"obj.PwHash.from_string","string":s})),
+            }
+        }
+    }
+    // a libsodium-verifiable string whose salt encodes as "argon2id..." must verify under dryoc too
+    {
+        let salt: [u8; 16] = [0x6a, 0xb8, 0x28, 0x9f, 0x68, 0x9d, 0, 0, 0, 0, 0, 0, 0, 0, 0, 0];
+        let salt_b64 = b64_nopad(&salt);
+        let pw = b"correct horse";
+        if let Some(h) = sodium::pwhash(32, pw, &salt, 3, 8192, 2) {
+            let s = phc("argon2id", "19", "8", "3", "1", &salt_b64, &b64_nopad(&h));
+            out.search_evaluations += 2;
+            let l = sodium::pwhash_str_verify(&s, pw);
+            let d = guard(|| crypto_pwhash_str_verify(&s, pw));
+            if l && !d.is_ok() { out.hit("pwhash.str_verify.rejects-libsodium-verifiable-string", format!("salt encodes as {}: {}", salt_b64, s), json!({"op":"pwhash.str_verify","string":s,"pw":hx(pw)})); }
+            out.notes.insert("field_like_salt_string".into(), json!({"string": s, "libsodium_accepts": l, "dryoc": d.class()}));
+        }
+    }
     let rounds = if thorough { 60 } else { 14 };
     for r in 0..rounds {
         let pw = { let l = rng.below(40) as usize; rng.bytes(l) };
